@@ -300,6 +300,16 @@ fn goal_paths(g: &G, next_var: &mut u32) -> Vec<Path> {
             paths(&gs, next_var)
         }
         G::Project(_, gs) => paths(gs, next_var),
+        // CLP(Z) equations over variables that all carry finite domains (the fd-t4 family):
+        // over the domain product they are the same equations as plusfd / timesfd
+        G::PlusZ(a, b, c) => vec![Path {
+            fd: vec![(FdKind::Plus, vec![a.clone(), b.clone(), c.clone()])],
+            ..Default::default()
+        }],
+        G::TimesZ(a, b, c) => vec![Path {
+            fd: vec![(FdKind::Times, vec![a.clone(), b.clone(), c.clone()])],
+            ..Default::default()
+        }],
         other => panic!("reference path semantics does not cover {}", other),
     }
 }
